@@ -593,3 +593,5 @@ end Txdbus.BusRoute
 #print axioms Txdbus.BusRoute.simple_rules_embed
 #print axioms Txdbus.BusRoute.arg0namespace_is_ignored
 #print axioms Txdbus.BusRoute.sender_constraint_is_ignored_full
+#print axioms Txdbus.BusRoute.ruleNsArg_wf
+#print axioms Txdbus.BusRoute.ruleNs0_wf
